@@ -36,6 +36,8 @@ CONSTANTS
     MaxT,         \* bound on the clock
     MaxReq,       \* bound on the number of requests
     MaxInflight,  \* bound on concurrently open entries
+    Pre,          \* FALSE: start with no known node; TRUE: start from ANY set of known nodes, any of them open
+                  \* (deadline at time 3, statistics expired) - reaches many-node ejection states with few requests
     Mut           \* "none"; otherwise a deliberately broken design (vacuity self-test of the property):
                   \* "cap" one node too many, "closed" filter drawn from all known nodes,
                   \* "half" probes not reported, "recycle" timer ignores the recovered mark
@@ -53,13 +55,16 @@ VARIABLES
 vars == <<now, cfg, nbk, inflight, rec, retry, nreq, last, h>>
 view == <<now, cfg, nbk, inflight, rec, retry, nreq>>
 
+PreOpen == [st |-> Open, retryAt |-> 3, probes |-> 0, ref |-> << >>]
 Ids == 1..MaxInflight
 FreeId == CHOOSE i \in Ids \ DOMAIN inflight : \A j \in Ids \ DOMAIN inflight : i <= j
 
 Init ==
     /\ now = 1
     /\ cfg \in Cfgs
-    /\ nbk = << >> /\ inflight = << >> /\ rec = << >> /\ retry = {}
+    /\ IF Pre THEN nbk \in { [n \in Kn |-> IF n \in Op THEN PreOpen ELSE NewBreaker] : Kn \in SUBSET Nodes, Op \in SUBSET Nodes }
+              ELSE nbk = << >>
+    /\ inflight = << >> /\ rec = << >> /\ retry = {}
     /\ nreq = 0
     /\ last = [op |-> "init"]
     /\ h = << [op |-> "new", rule |-> cfg.rule, pct |-> cfg.pct, active |-> cfg.active] >>
